@@ -209,6 +209,11 @@ func (o *Overlay) TransmitMsg(onetMsg *ProtocolMsg, io MessageProxy) error {
 			return xerrors.Errorf("creating protocol: %v", err)
 		}
 		if pi == nil {
+			// no instance and no error: the node that was listed for the
+			// instance would stay listed, and keep its tree, for ever
+			o.instancesLock.Lock()
+			o.nodeDelete(onetMsg.To)
+			o.instancesLock.Unlock()
 			return nil
 		}
 		go func() {
